@@ -149,6 +149,32 @@ def _r111(ctx: Ctx) -> None:
         ctx.ob('R11.1', site, f'run_once pipeline and recorded dictionary ({"rng supplied" if given else "rng=None"})',
                bad is None, bad or '', key=f'run_once|pipeline[{given}]',
                facts={k: repr(v) for k, v in rets[0].value[0].items()} if isinstance(rets[0].value[0], dict) else None)
+    # recorded success = codespace and no logical effect (same evaluation as C04 R04.1)
+    from .c04 import _classify_def, _table_with_effect_terms
+    kinds = {}
+    target = None
+    for n in ast.walk(fn):
+        if isinstance(n, ast.Assign) and len(n.targets) == 1 and isinstance(n.targets[0], ast.Name):
+            k = _classify_def(ctx, mi, n.value, kinds)
+            if k:
+                kinds[n.targets[0].id] = k
+    succ_key = None
+    for n in ast.walk(fn):
+        if isinstance(n, ast.Dict):
+            for k, v in zip(n.keys, n.values):
+                if isinstance(k, ast.Constant) and k.value == 'success':
+                    succ_key = v
+    ctx.need(succ_key is not None, 'R11.1', site, "run_once: 'success' entry not found")
+    expr = succ_key
+    if isinstance(succ_key, ast.Name):
+        defs = [n for n in ast.walk(fn) if isinstance(n, ast.Assign) and isinstance(n.targets[0], ast.Name)
+                and n.targets[0].id == succ_key.id]
+        ctx.need(len(defs) == 1, 'R11.1', site, 'run_once: definition of success not found')
+        expr = defs[0].value
+    table = _table_with_effect_terms(ctx, mi, fn, expr, kinds)
+    oks = len(table) == 4 and all(v == (a and not b) for (a, b), v in table.items())
+    ctx.ob('R11.1', site_of(mi, expr), 'run_once: recorded success <=> codespace and zero effective error', oks,
+           f'table (A=codespace, B=logical effect) -> success: {sorted(table.items())}', key='run_once|success')
     # error rate validated
     guards = [n for n in ast.walk(fn) if isinstance(n, ast.If) and any(isinstance(s, ast.Raise) for s in n.body)
               and 'error_rate' in ast.unparse(n.test)]
@@ -364,7 +390,7 @@ def _r113(ctx: Ctx) -> None:
 
 
 def run(ctx: Ctx) -> None:
-    ctx.rule('R11.1', 'run_once: generate -> measure -> decode -> add mod 2 -> classify; recorded keys bound to their roles', floor=3)
+    ctx.rule('R11.1', 'run_once: generate -> measure -> decode -> add mod 2 -> classify; recorded keys bound to their roles', floor=4)
     ctx.rule('R11.2', 'per-trial accounting of _run and the estimator of get_results', floor=6)
     ctx.rule('R11.3', 'no process-global generator reachable from _run when an rng is supplied', floor=5)
     ctx.trust('success test itself and the logical-effect layout are decided in C04; the sampler in C07; decoder '
